@@ -29,10 +29,12 @@ CONFIG = {
     "native_ok": [],
     "trivial_re": r"^st=unsupported|^h=",
     "rule": "symmetric-structure generator (cycles 1-10(22), chains, cliques 2-5, stars, double stars, bipartite, disjoint isomorphic copies, "
-            "blank graph names, same edges in several graphs, self loops, the shipped examples, literals with every escaped character) x "
+            "blank graph names, same edges in several graphs, hubs with multi-edges across graphs to equal-hash siblings plus a non-automorphic near-twin "
+            "component (each under 5-8 enumeration orders of the order-preserving container), self loops, the shipped examples, literals with every escaped character) x "
             "random label bijections (labels chosen to sort against the structure) x quad orders x 5 dataset implementations x 2 hashes; "
             "depth factor / permutation limit grid incl. 0, NaN, negative, infinity; random small graphs; each request is additionally the base of "
-            "3 isomorphic and up to 3 one-edit variants executed on the implementation; non-trivial = canonicalisation reaches step 3",
+            "3 isomorphic variants, 7 enumeration orders of the same quads (duplicate edges adjacent / interleaved / reversed / shuffled, order-preserving "
+            "SetDataset) and up to 3 one-edit variants executed on the implementation; non-trivial = canonicalisation reaches step 3",
     "trusted_base": ["model lean/SophiaModel/Model/{Rdfc10,Cnq,Sha2}.lean (differentially tied)", "sha2 0.10 (every digest compared with the Lean SHA-2)",
                      "harness-side backtracking isomorphism test (independent of sophia_isomorphism)"],
     "assumptions": ["Rust str/[u8;N] comparison = code-point / hex-string order (DESIGN 3.1)",
